@@ -44,7 +44,8 @@ var keyPool = map[string][]string{
 	"ident":     {"a", "b", "c", "aa", "ab", "key1", "x_y", "B", "zz9"},
 	"space":     {"a b", " lead", "two  spaces"},
 	"unicode":   {"é", "日本", "ключ", "😀k"},
-	"dot":       {"a.b", ".", "x.y.z"},
+	"dot":       {"a.b", "a.", "x.y.z"},
+	"leading-dot": {".", ".a"},
 	"bracket":   {"x[0]", "a]", "[1]"},
 	"dollar":    {"$", "$a"},
 	"quote":     {"a\"b", "\"q\""},
@@ -54,7 +55,7 @@ var keyPool = map[string][]string{
 }
 
 // keyClasses used for document members; weights favour plain identifiers.
-var docKeyClasses = []string{"ident", "ident", "ident", "ident", "ident", "space", "unicode", "dot", "quote", "backslash", "empty", "control", "bracket", "dollar"}
+var docKeyClasses = []string{"ident", "ident", "ident", "ident", "ident", "space", "unicode", "dot", "quote", "backslash", "empty", "control", "bracket", "dollar", "leading-dot"}
 
 func genKey(rnd *rand.Rand) string {
 	c := docKeyClasses[rnd.Intn(len(docKeyClasses))]
@@ -76,6 +77,8 @@ func keyClass(k string) string {
 		return "bracket"
 	case strings.Contains(k, "$"):
 		return "dollar"
+	case strings.HasPrefix(k, "."):
+		return "leading-dot"
 	case strings.Contains(k, "."):
 		return "dot"
 	case strings.Contains(k, " "):
@@ -429,7 +432,7 @@ func (p path) String() string {
 // class describes the path: depth and the least ordinary key class on it.
 func (p path) class() string {
 	worst := "ident"
-	rank := map[string]int{"ident": 0, "unicode": 1, "space": 2, "dot": 3, "control": 4, "backslash": 5, "quote": 6, "empty": 7, "bracket": 8, "dollar": 9}
+	rank := map[string]int{"ident": 0, "unicode": 1, "space": 2, "dot": 3, "control": 4, "backslash": 5, "quote": 6, "empty": 7, "bracket": 8, "dollar": 9, "leading-dot": 10}
 	hasIdx := false
 	for _, s := range p {
 		if s.isIdx {
